@@ -377,9 +377,15 @@ class RenderContext:
             # tag namespaces need to be copied.
             ctx.tag_namespace["extends"] = self.tag_namespace["extends"]
         else:
+            # An isolated scope sees the data the render started with and
+            # _namespace_. Not the arguments or block scopes of enclosing partials.
+            root = self
+            while root.parent is not None:
+                root = root.parent
+
             ctx = self.__class__(
                 template or self.template,
-                global_data=ReadOnlyChainMap(namespace, self.globals),
+                global_data=ReadOnlyChainMap(namespace, root.globals),
                 disabled_tags=disabled_tags,
                 copy_depth=self._copy_depth + 1,
                 parent=self,
